@@ -29,6 +29,17 @@ def main(argv=None) -> int:
         print(f"replaying {len(rp.get('violations', []))} recorded violation(s) for {prop}:")
         for v in rp.get("violations", []):
             print(f"  recorded: rule={v['rule']} key={v['key']} {v['file']}:{v['line']} {v['message']}")
+    if tier == "thorough" and not os.environ.get("VERIF_REPO"):
+        from . import core, selftest
+        st = selftest.run(prop)
+        core.EXTRA_EVIDENCE["selftest"] = st
+        tw = st.get("twin") or {}
+        print(f"SELFTEST property={prop} benign-twin-silent={tw.get('silent')} seeded-changes-reported={st['seeds_reported']}/{st['seeds_total']}")
+        for s_ in st["seeds"]:
+            if not s_.get("reported"):
+                print(f"SELFTEST-MISS property={prop} seed={s_['seed']} {s_.get('note', '')}")
+        if tw and not tw.get("silent"):
+            print(f"SELFTEST-FALSE-ALARM property={prop} on the ast.unparse twin: {tw.get('first')}")
     return run_check(prop, m.run, tier)
 
 
